@@ -65,7 +65,7 @@ Client0 == [pc |-> "off", pkt |-> NoPkt, cid |-> "", clean |-> FALSE, will |-> N
             killed |-> FALSE, resumed |-> FALSE, resend |-> <<>>, replayed |-> {}, seenconnect |-> FALSE, connacks |-> 0, setups |-> 0, terms |-> 0, wills |-> 0, cleanup |-> "no", closed |-> FALSE,
             acker |-> NoPkt]
 Dq0 == [pc |-> "off", msg |-> NoMsg, gs |-> {}, id |-> 0]
-Ctx0 == [on |-> FALSE, msg |-> NoMsg, todo |-> {}, src |-> ""]
+Ctx0 == [on |-> FALSE, msg |-> NoMsg, todo |-> {}, src |-> "", n |-> 0]
 Sess0 == [exists |-> FALSE, temp |-> FALSE, cid |-> "", subs |-> {}, tq |-> <<>>, sq |-> <<>>, out |-> <<>>, inc |-> {}, next |-> 1, active |-> ""]
 
 InitBase ==
@@ -319,7 +319,7 @@ SubReplay(c, i, m) ==
   /\ i \in 1..Len(cl[c].pkt.subs)
   /\ m \in retained /\ Matches(cl[c].pkt.subs[i].f, m.top)
   /\ <<i, m.m>> \notin cl[c].replayed
-  /\ sess' = [sess EXCEPT ![cl[c].sk].tq = Append(@, [msg |-> m, gs |-> Grants(cl[c].sk, m.top)])]
+  /\ sess' = [sess EXCEPT ![cl[c].sk].tq = Append(@, [msg |-> m, gs |-> Grants(cl[c].sk, m.top), from |-> "", n |-> 0])]
   /\ SetCl(c, [cl[c] EXCEPT !.replayed = @ \cup {<<i, m.m>>}])
   /\ UNCHANGED <<link, up, down, dq, ackq, ackdue, tok, pubctx, retained, cfg, closing, ghost>>
 
@@ -368,7 +368,7 @@ PubCall(c, msg, hasack) ==
         /\ tok' = [tok EXCEPT ![c].p = IF msg.q = 1 THEN @ - 1 ELSE @]
         /\ ackdue' = [ackdue EXCEPT ![c] = IF hasack THEN @ \cup {[m |-> msg.m, pkt |-> [t |-> "PUBACK", id |-> cl[c].pkt.id]]} ELSE @]
         /\ SetCl(c, [cl[c] EXCEPT !.pc = "pub"])
-        /\ pubctx' = [pubctx EXCEPT ![c] = [on |-> TRUE, msg |-> [msg EXCEPT !.ret = FALSE], todo |-> {k \in SKeys : sess[k].exists}, src |-> "proc"]]
+        /\ pubctx' = [pubctx EXCEPT ![c] = [on |-> TRUE, msg |-> [msg EXCEPT !.ret = FALSE], todo |-> {k \in SKeys : sess[k].exists}, src |-> "proc", n |-> Len(ghost.handed) + 1]]
         /\ ghost' = [ghost EXCEPT !.handed = Append(@, msg.m)]
      \/ /\ cl[c].pc = "rel.known"                                    \* PUBREL for a stored QoS 2 message
         /\ G("C07", "ReleasedMessageIsTheStoredOne", SameMsg(msg, cl[c].pkt.msg) /\ msg.q = 2)
@@ -377,7 +377,7 @@ PubCall(c, msg, hasack) ==
         /\ tok' = tok
         /\ ackdue' = [ackdue EXCEPT ![c] = @ \cup {[m |-> msg.m, pkt |-> [t |-> "PUBCOMP", id |-> cl[c].pkt.id]]}]
         /\ SetCl(c, [cl[c] EXCEPT !.pc = "pub"])
-        /\ pubctx' = [pubctx EXCEPT ![c] = [on |-> TRUE, msg |-> [msg EXCEPT !.ret = FALSE], todo |-> {k \in SKeys : sess[k].exists}, src |-> "proc"]]
+        /\ pubctx' = [pubctx EXCEPT ![c] = [on |-> TRUE, msg |-> [msg EXCEPT !.ret = FALSE], todo |-> {k \in SKeys : sess[k].exists}, src |-> "proc", n |-> Len(ghost.handed) + 1]]
         \* exactly once: the stored message is handed on again only while the first hand-over is in doubt (its ack was never invoked)
         /\ G("C07", "Q2HandedOnce", \A x \in S(c).inc : x.id = cl[c].pkt.id => (~x.handed \/ ~x.acked))
         /\ ghost' = [ghost EXCEPT !.handed = Append(@, msg.m)]
@@ -389,7 +389,7 @@ PubCall(c, msg, hasack) ==
         /\ ~hasack
         /\ UNCHANGED <<tok, ackdue>>
         /\ SetCl(c, [cl[c] EXCEPT !.cleanup = "will", !.wills = @ + 1])
-        /\ pubctx' = [pubctx EXCEPT ![c] = [on |-> TRUE, msg |-> [msg EXCEPT !.ret = FALSE], todo |-> {k \in SKeys : sess[k].exists}, src |-> "will"]]
+        /\ pubctx' = [pubctx EXCEPT ![c] = [on |-> TRUE, msg |-> [msg EXCEPT !.ret = FALSE], todo |-> {k \in SKeys : sess[k].exists}, src |-> "will", n |-> 0]]
         /\ ghost' = [ghost EXCEPT !.willpub = Append(@, c)]
   /\ retained' = Retain(msg)
   /\ sess' = IF cl[c].pc = "rel.known"
@@ -398,21 +398,23 @@ PubCall(c, msg, hasack) ==
   /\ UNCHANGED <<link, up, down, dq, ackq, cfg, closing>>
 
 \* silent: MemoryBackend.Publish visits one session (any order)
-FanOut(c, s, drop) ==
+FanOut(c, s, drop, keep) ==
   /\ pubctx[c].on /\ s \in pubctx[c].todo
   /\ LET msg == pubctx[c].msg
          gs == Grants(s, msg.top)
          q == IF msg.q = 0 THEN "tq" ELSE "sq"
          len == IF msg.q = 0 THEN Len(sess[s].tq) ELSE Len(sess[s].sq)
          act == sess[s].active
-         entry == [msg |-> msg, gs |-> gs]
+         entry == [msg |-> msg, gs |-> gs, from |-> IF pubctx[c].src = "will" THEN "" ELSE IF cl[c].cid = "" THEN c ELSE cl[c].cid, n |-> pubctx[c].n]
          mayDrop == \/ act = "" /\ len >= cfg.queue                       \* offline and full
                     \/ act # "" /\ act # c /\ cl[act].dying /\ len >= cfg.queue    \* going offline and full
      IN /\ pubctx' = [pubctx EXCEPT ![c].todo = @ \ {s}]
         /\ IF gs = {} \/ ~sess[s].exists THEN ~drop /\ sess' = sess
            ELSE IF drop THEN mayDrop /\ sess' = sess          \* (a drop with room in the queue shows up as an undelivered message)
            ELSE /\ (act = "" => len < cfg.queue)
-                /\ sess' = IF msg.q = 0 THEN [sess EXCEPT ![s].tq = Append(@, entry)] ELSE [sess EXCEPT ![s].sq = Append(@, entry)]
+                \* a QoS 0 message for an offline session may also be kept with the stored ones (MQTT leaves it open; `keep`); C15 then
+                \* requires that it is not overtaken (NoOvertaking at DeqRet)
+                /\ sess' = IF msg.q = 0 /\ ~(act = "" /\ keep) THEN [sess EXCEPT ![s].tq = Append(@, entry)] ELSE [sess EXCEPT ![s].sq = Append(@, entry)]
   /\ UNCHANGED <<link, up, down, cl, dq, ackq, ackdue, tok, retained, cfg, closing, ghost>>
 
 \* the backend accepts responsibility: the acknowledgement is queued for the acker
@@ -559,6 +561,10 @@ DeqRet(c, msg, fromStored) ==
            /\ G(IF e.msg.ret THEN "C11" ELSE "C06", "ForwardIntact", SameMsg(msg, e.msg))
            /\ G("C11", "RetainFlag", msg.ret = e.msg.ret)
            /\ G(IF e.msg.ret THEN "C11" ELSE "C06", "DeqQoSCap", msg.q \in {Min(e.msg.q, g) : g \in gs})
+           \* per-publisher order across the two queues: nothing published earlier by the same client at the same QoS class still waits in the other queue
+           /\ LET other == IF fromStored THEN sess[s].tq ELSE sess[s].sq IN
+              G("C15", "NoOvertaking", e.from = "" \/ \A i \in 1..Len(other) :
+                   (other[i].from = e.from /\ (other[i].msg.q = 0) = (e.msg.q = 0)) => other[i].n > e.n)
            /\ dq' = [dq EXCEPT ![c] = [pc |-> IF msg.q = 0 THEN "saved" ELSE "have", msg |-> msg, gs |-> gs, id |-> 0]]
         /\ sess' = IF fromStored THEN [sess EXCEPT ![s].sq = Tail(@)] ELSE [sess EXCEPT ![s].tq = Tail(@)]
   /\ UNCHANGED <<link, up, down, cl, ackq, ackdue, tok, pubctx, retained, cfg, closing, ghost>>
